@@ -787,7 +787,8 @@ def gen_api_case(rng, variant=None):
 class Prop:
     pid = 'C17'
     props_file = 'Props/C17.v'
-    required_theorems = ['attr_roundtrip_up_to_flags', 'attr_roundtrip_core_outside_known', 'attr_roundtrip_core_refuted', 'from_api_total', 'from_api_preserves_wf', 'wire_values_are_wf', 'wf_is_safe_downstream', 'api_accepted_is_safe', 'nlri_roundtrip_core', 'net_from_api_preserves_wf', 'nlri_encode_safe', 'local_path_accepts_wf', 'evpn_roundtrip', 'evpn_from_api_preserves_wf', 'noncore_roundtrip_guarded', 'noncore_typed_from_api_wf', 'flowspec_roundtrip', 'flowspec_from_api_preserves_wf', 'srpolicy_roundtrip_and_wf', 'rtc_roundtrip_outside_known', 'rtc_roundtrip_refuted', 'rtc_from_api_preserves_wf']
+    required_theorems = ['attr_roundtrip_up_to_flags', 'attr_roundtrip_core_outside_known', 'attr_roundtrip_core_refuted', 'from_api_total', 'from_api_preserves_wf', 'wire_values_are_wf', 'wf_is_safe_downstream', 'api_accepted_is_safe', 'nlri_roundtrip_core', 'net_from_api_preserves_wf', 'nlri_encode_safe', 'local_path_accepts_wf', 'evpn_roundtrip', 'evpn_from_api_preserves_wf', 'noncore_roundtrip_guarded', 'noncore_typed_from_api_wf', 'flowspec_roundtrip', 'flowspec_from_api_preserves_wf', 'srpolicy_roundtrip_and_wf', 'rtc_roundtrip_outside_known', 'rtc_roundtrip_refuted', 'rtc_from_api_preserves_wf',
+                         'typed_from_api_total', 'prefix_sid_accepted_wf', 'prefix_sid_roundtrip', 'tunnel_encap_accepted_wf', 'tunnel_encap_roundtrip']
     correspondence_name = ('Model/Api.v (wire_accept, to_api, from_api, net_from_api, nlri_to_api, local_path, as_path_length, encode_attr, rib_cmp, encode_nlri) vs '
                            'daemon/src/convert.rs attr_to_api / attr_from_api / nlri_to_api / net_from_api, event/grpc.rs GrpcService::local_path, '
                            'packet Attribute::{decode via PeerCodec::parse_message, as_path_length, encode_to_bytes}, Nlri::encode_to_bytes, '
@@ -798,6 +799,10 @@ class Prop:
             '(5) a whole api::Path through GrpcService::local_path, then Table::insert; (6) one API EVPN message through net_from_api, checked to decode back from its own wire encoding; '
             '(7) one internal EVPN route through nlri_to_api / net_from_api; (8) one API NLRI message of the flowspec (plain / VPN), SR Policy, RTC and MUP families through net_from_api and the family check of local_path, '
             'then Nlri::encode, the repository decoder on those bytes (must give the accepted value back), nlri_to_api and net_from_api again; flowspec / SR Policy / RTC are modelled (accepted?, wire bytes, listed form compared), MUP is judged by the oracle only; '
+            '(9) one typed PrefixSid or TunnelEncap message through attr_from_api, then the packet decoder on the stored value, attr_to_api and attr_from_api again: modelled (accepted?, value octets, listing compared; '
+            'a PrefixSid message whose prost maps hold several keys is compared on accepted? only, their iteration order is not fixed) and judged by a normal-form oracle (refused, or listed as given); '
+            'gen/c17typed.py ENUMERATES 67 further classes (377 cases: every oneof unset, every bounded field at bound and bound + 1, SID lengths 0/4/15/16/17, every flag alone, each one-per-path sub-TLV twice, '
+            'names around the two-octet length, values around 65535 octets, tunnel types around u16); '
             'these kinds are modelled and compared with the model value for value. '
             'gen/c17enum.py ENUMERATES 120 classes (about 4200 cases) on every run, one per clause / branch / comparison of the anchored functions with values on both sides of each boundary '
             '(every flags octet; value lengths around each type rule; segment counts 0/1/63/64/65/127/128/129/254/255/256/257 with AS numbers whose octets look like segment headers; 255/256 and 65535/65536-octet values; '
@@ -822,8 +827,10 @@ class Prop:
         'CLUSTER_LIST, EXTENDED_COMMUNITIES (all twelve variants of read_extcom/write_extcom), LARGE_COMMUNITIES, Unknown (incl. MP_REACH/MP_UNREACH/AS4_PATH/AS4_AGGREGATOR/AIGP '
         'opaque and the typed MpReach message); NLRI: Prefix, LabeledPrefix, LabeledVPNIPPrefix arms, the five EVPN route types (RD, ESI, MAC and IP address text), flowspec (plain and VPN, both IP versions: '
         'prefix and operator components, operator framing bits, 12-bit length), SR Policy and Route Target Constraint, each with its wire encoding. '
-        'For TUNNEL_ENCAP, PREFIX_SID and the BGP-LS attribute only the lossless-or-raw wrapper of attr_to_api is modelled (theorems noncore_*): the typed TLV converters are uninterpreted '
-        'functions there, so the round trip is proved for whatever they compute but a panic inside them, and what the typed form looks like, is covered by the wide differential part only; '
+        'For TUNNEL_ENCAP and PREFIX_SID the typed messages are modelled from the API side (prefix_sid_from_api / tunnel_encap_tlv_from_api, the encoders of packet/src/prefix_sid.rs and packet/src/tunnel_encap.rs, '
+        'and the typed listing on the stored tree: theorems typed_from_api_total, prefix_sid_*, tunnel_encap_*); their wire DECODERS are not modelled: that the decoder reads the stored value back is an observation of the harness judged by the oracle, '
+        'and the one place where the listing depends on the decoder (a type B segment structure is read only under flag 0x40) enters the model as a stated rule of seg_to_api; std::str::from_utf8 is the Gallina function utf8_valid (compared, not proved). '
+        'For these two and the BGP-LS attribute the lossless-or-raw wrapper of attr_to_api is modelled with the typed converters as uninterpreted functions (theorems noncore_*); the typed BGP-LS attribute message (ls_tlvs_from_api) is NOT modelled and only reached from the wire side by the wide differential part; '
         'the MUP and BGP-LS NLRI families are not modelled: MUP is covered from the API side by kind 8 (oracle: decodes back from its own encoding, relists unchanged, family consistent) and both from the wire side by the wide differential part (sampling, no proof): the property is claimed partial for them',
         'the wire decoder is modelled only as far as C17 needs it (Attribute::decode in four-octet-AS form and the per-attribute admission of the UPDATE arm); '
         'two-octet-AS sessions, treat-as-withdraw and NLRI decoding are exercised by the wide part only',
